@@ -24,6 +24,30 @@ def users_for(rng, name):
         u.append(b + b'@' + base.encode() if rng.random() < 0.5 else b)
     u = [x[:253] for x in u]
     return u
+def empty_username_cases(rng):
+    """'*' matches every User-Name -- also the one of length 0 (the property's quantifier starts at 0): one Access-Request
+    and one Accounting-Request with a zero-length User-Name, only realm '*', a usable server; a one-octet name as control"""
+    import focus
+    out = []
+    for k, code in enumerate((1, 4)):
+        cfg = focus._cfg1(rng)
+        cfg.realms[0].name = '*'
+        ops = []
+        for i, un in enumerate((b'x', b'')):
+            pkt, _ = pipeline.clean_request(rng, cfg, 0, code=code, ident=40 + i, uname=un, ma=(code == 1))
+            ops.append('op cpkt 0 1000005 %s %s' % (pipeline.rnd40(rng), hx(pkt)))
+        out.append(('emptyuser-%d' % k, cfg.conf_lines() + cfg.cfg_lines() + ['cfg strict empty-username'] + ops))
+    return out
+
+def _is_empty_username_drop(case, impl_lines, model_lines, problems):
+    """the recorded finding and nothing else: the only failing spec is C08_star_matches_empty_username, there is no
+    model/implementation mismatch, and the case is one of the dedicated ones"""
+    specs = [p for p in problems if p[0] == 'spec']
+    return (case[0].startswith('emptyuser-') and bool(specs) and all(p[1] == 'C08_star_matches_empty_username' for p in specs)
+            and not [p for p in problems if p[0] != 'spec'])
+
+CLASSIFIERS = {'empty_username_dropped': _is_empty_username_drop}
+
 def generate(rng, tier):
     ops = []
     names = list(NAMES) + ['*', '/@ex.*\\.com$', '/^[a-z]+@/', '/@b\\.example$/',
@@ -63,4 +87,4 @@ def generate(rng, tier):
     cases += pipeline.guided_cases(rng, 400 if tier == 'thorough' else 25, lambda rng, cfg: pipeline.history(rng, cfg, 10), 'route', rich=False, cfgmod=mod)
     import focus
     cases += focus.noserver_cases(rng, 4 if tier == 'thorough' else 1)
-    return cases
+    return empty_username_cases(rng) + cases
